@@ -187,7 +187,7 @@ impl Tokenizer
 					code += "\"";
 					(escaped,addr) = super::bytes_to_escaped_string_ex(&img, addr+1, &self.config.detokenizer.escapes, &[CLOSE_QUOTE,EOL]);
 					code += &escaped;
-					if img[addr] == CLOSE_QUOTE {
+					if addr<img.len() && img[addr] == CLOSE_QUOTE {
 						code += "\"";
 						addr += 1;
 					}
